@@ -390,13 +390,33 @@ func ruleR15_7(w *World, r *Report) {
 	n := 0
 	for _, ci := range callsIn(fn) {
 		c, ok := ci.(*ssa.Call)
-		if !ok || typeShort(c.Type()) != "*solver.Clause" || len(c.Call.Args) == 0 || !inLoop(fn, c.Block()) {
+		if !ok || len(c.Call.Args) == 0 || !inLoop(fn, c.Block()) {
 			continue
 		}
 		var lits ssa.Value
-		for _, a := range c.Call.Args {
-			if typeShort(a.Type()) == "[]solver.Lit" {
-				lits = a
+		if typeShort(c.Type()) == "*solver.Clause" {
+			for _, a := range c.Call.Args {
+				if typeShort(a.Type()) == "[]solver.Lit" {
+					lits = a
+				}
+			}
+		} else if h := c.Call.StaticCallee(); h != nil && w.PkgName(h) == "solver" && len(h.Blocks) > 0 {
+			// a helper that builds the constraint from the group it is handed (`pb.addAtMostOne(constr)`)
+			for ai, a := range c.Call.Args {
+				if typeShort(a.Type()) != "[]solver.Lit" || ai >= len(h.Params) {
+					continue
+				}
+				for _, hi := range callsIn(h) {
+					hc, isCall := hi.(*ssa.Call)
+					if !isCall || typeShort(hc.Type()) != "*solver.Clause" {
+						continue
+					}
+					for _, ha := range hc.Call.Args {
+						if ha == ssa.Value(h.Params[ai]) {
+							lits = a
+						}
+					}
+				}
 			}
 		}
 		if lits == nil {
@@ -1212,6 +1232,80 @@ func ruleR18_8(w *World, r *Report) {
 			}
 			r.Check(reads, "R18.8", key, w.Pos(fn.Pos()), "the rendering depends on Problem.Status",
 				"the printer never reads Problem.Status: a problem that the parser found unsatisfiable is printed from what simplification left over, and that text can be satisfiable when read back")
+			if !reads {
+				continue
+			}
+			// the constraints left over are rendered only when the status is known not to be Unsat: every loop over
+			// Problem.Clauses / Problem.Units reachable from the printer sits behind the outcome `Status != Unsat` of a test
+			// of the status alone (`Status == Unsat && nothing left` lets an unsatisfiable problem with leftovers through)
+			unsatK, _ := w.statusConst("Unsat")
+			excluded := func(b *ssa.BasicBlock) bool {
+				for _, ec := range dominatingConds(b) {
+					bo, ok := ec.Cond.(*ssa.BinOp)
+					if !ok || (bo.Op != token.EQL && bo.Op != token.NEQ) {
+						continue
+					}
+					if o, f, _, okF := loadedFieldOf(bo.X); !okF || o != "solver.Problem" || f != "Status" {
+						continue
+					}
+					if k, isK := constInt(bo.Y); !isK || k != unsatK {
+						continue
+					}
+					if (bo.Op == token.EQL) != ec.True {
+						return true
+					}
+				}
+				return false
+			}
+			scope := w.Reachable(fn)
+			var covered func(g *ssa.Function, b *ssa.BasicBlock, depth int) bool
+			covered = func(g *ssa.Function, b *ssa.BasicBlock, depth int) bool {
+				if excluded(b) {
+					return true
+				}
+				if g == fn || depth > 2 {
+					return false
+				}
+				sites := 0
+				for caller := range scope {
+					for _, ci := range callsIn(caller) {
+						if !w.staticCalleeIs(ci, g) {
+							continue
+						}
+						sites++
+						if !covered(caller, ci.Block(), depth+1) {
+							return false
+						}
+					}
+				}
+				return sites > 0
+			}
+			k := 0
+			for g := range scope {
+				if w.PkgName(g) != "solver" || len(g.Blocks) == 0 {
+					continue
+				}
+				for _, h := range loopHeaders(g) {
+					over := ""
+					for b := range loopBlocks(g, h) {
+						for _, ins := range b.Instrs {
+							if ia, ok := ins.(*ssa.IndexAddr); ok {
+								for _, f := range []string{"Clauses", "Units"} {
+									if _, isF := isFieldLoad(ia.X, "solver.Problem", f); isF {
+										over = f
+									}
+								}
+							}
+						}
+					}
+					if over == "" {
+						continue
+					}
+					k++
+					r.Check(covered(g, h, 0), "R18.8", fmt.Sprintf("%s renders %s only when not Unsat (%s)", w.FuncName(fn), over, w.FuncName(g)), w.InstrPos(h.Instrs[len(h.Instrs)-1]),
+						"behind the outcome Status != Unsat", "the constraints left after simplification are printed on a path where the status may be Unsat (the test of the status is missing, or combined with another condition): a problem found unsatisfiable while being read, with satisfiable leftovers, is printed as a satisfiable text")
+				}
+			}
 		}
 	}
 	if n == 0 {
@@ -1625,6 +1719,10 @@ func ruleR4_6(w *World, r *Report) {
 		}
 		return phi, app, ""
 	}
+	// the two lists may be built by a helper of New that returns them (`optLits, optWeights := pb.costFunc()`)
+	if ll, wl := w.resultLeaves(lits), w.resultLeaves(weights); len(ll) == 1 && len(wl) == 1 {
+		lits, weights = ll[0], wl[0]
+	}
 	_, la, why1 := accum(lits)
 	_, wa, why2 := accum(weights)
 	switch {
@@ -1982,7 +2080,6 @@ func ruleR5_8(w *World, r *Report) {
 		r.Unk("R5.8", "discarded statuses", "-", "no call with a discarded solver.Status result")
 	}
 }
-
 
 // ---------- R3.7: the decision heap is rebuilt between adding a constraint and searching again ----------
 
